@@ -85,6 +85,19 @@ pub fn expr_params(e: &E, out: &mut Col) {
             out.push(PV::I32(crate::expr_spec::SUB_BOUND));
         }
         E::Exists | E::ScalarSub => out.push(PV::I32(crate::expr_spec::SUB_BOUND)),
+        // function constructors that add a bound value of their own in front of the argument
+        E::Func(crate::expr_spec::F::PgToTsqueryCfg | crate::expr_spec::F::PgToTsvectorCfg, args) => {
+            out.push(PV::U32(crate::expr_spec::PG_REGCONFIG));
+            for a in args {
+                expr_params(a, out);
+            }
+        }
+        E::Func(crate::expr_spec::F::PgDateTrunc, args) => {
+            out.push(PV::Text("day".into()));
+            for a in args {
+                expr_params(a, out);
+            }
+        }
         E::InTuples(cols, rows) => {
             for c in cols {
                 expr_params(c, out);
